@@ -119,6 +119,17 @@ Theorem C16_dss_init_defined : forall (P : Type) c (st : state P) bs rest,
 Proof. exact dss_init_progress. Qed.
 Print Assumptions C16_dss_init_defined.
 
+(* a whole dss history (any interleaving of init, shake, close and evaluations over >= 2
+   examples, any period) never leaves defined behaviour: it consumes exactly one boolean draw
+   per example and reshuffle, whatever the outcomes of the draws *)
+Theorem C16_dss_history_defined : forall (P : Type) c ops (st : state P) bs,
+  forallb is_dss_op ops = true -> gap c <> 0 ->
+  2 <= population P st -> target_ok c (population P st) ->
+  length bs = (Z.to_nat (population P st) * n_reshuffles c ops)%nat ->
+  exists tr, run_ops P c ops st (map DBool bs) = Some (tr, []).
+Proof. exact dss_history_defined. Qed.
+Print Assumptions C16_dss_history_defined.
+
 (* closing returns all examples to a single set (and clears the evaluators) *)
 Theorem C16_close_single_set : forall (P : Type) (st : state P),
   training (dss_close P st) = [] /\ validation (dss_close P st) = validation st ++ training st
